@@ -441,6 +441,76 @@ func (st *State) external(caller *frame, fn *ssa.Function, args []Value) Value {
 			}
 		}
 		return nil
+	case "(*bytes.Buffer).WriteString", "(*bytes.Buffer).WriteByte", "(*bytes.Buffer).WriteRune", "(*bytes.Buffer).Write":
+		// write-only use of a bytes.Buffer: field 0 (buf) holds everything written since the last Reset
+		b := (*args[0].(*Value)).(Struct)
+		buf, _ := b[0].(Slice)
+		n := 0
+		switch name {
+		case "(*bytes.Buffer).WriteString":
+			for _, t := range strBytes(st.strArg(args[1])) {
+				buf = append(buf, t)
+				n++
+			}
+		case "(*bytes.Buffer).Write":
+			for _, t := range args[1].(Slice) {
+				buf = append(buf, t)
+				n++
+			}
+		case "(*bytes.Buffer).WriteByte":
+			buf = append(buf, args[1].(*Term))
+			n = 1
+		default:
+			for _, t := range strBytes(st.conv(types.Typ[types.String], types.Typ[types.Rune], args[1])) {
+				buf = append(buf, t)
+				n++
+			}
+		}
+		b[0] = buf
+		if name == "(*bytes.Buffer).WriteByte" {
+			return Iface{}
+		}
+		return Tuple{ConstInt(64, int64(n)), Iface{}}
+	case "(*bytes.Buffer).String":
+		b := (*args[0].(*Value)).(Struct)
+		buf, _ := b[0].(Slice)
+		bs := make([]*Term, len(buf))
+		for i, e := range buf {
+			bs[i] = e.(*Term)
+		}
+		return mkStr(bs)
+	case "(*bytes.Buffer).Len":
+		b := (*args[0].(*Value)).(Struct)
+		buf, _ := b[0].(Slice)
+		return ConstInt(64, int64(len(buf)))
+	case "(*bytes.Buffer).Reset":
+		b := (*args[0].(*Value)).(Struct)
+		b[0] = Slice(nil)
+		return nil
+	case "(*sync.Pool).Get":
+		// a pool hands back what was put into it (most recent first), else a new object
+		pp := args[0].(*Value)
+		if items := st.pools[pp]; len(items) > 0 {
+			v := items[len(items)-1]
+			st.pools[pp] = items[:len(items)-1]
+			return v
+		}
+		ps := (*pp).(Struct)
+		newFn := ps[len(ps)-1]
+		if c, ok := newFn.(*Closure); ok && c != nil {
+			return st.call(caller, token.NoPos, newFn, nil)
+		}
+		if newFn == nil {
+			return Iface{}
+		}
+		return st.call(caller, token.NoPos, newFn, nil)
+	case "(*sync.Pool).Put":
+		pp := args[0].(*Value)
+		if st.pools == nil {
+			st.pools = map[*Value][]Value{}
+		}
+		st.pools[pp] = append(st.pools[pp], args[1])
+		return nil
 	case "(*strings.Builder).WriteString", "(*strings.Builder).WriteByte", "(*strings.Builder).WriteRune", "(*strings.Builder).Write":
 		b := (*args[0].(*Value)).(Struct)
 		buf, _ := b[1].(Slice)
